@@ -157,6 +157,10 @@ def is_const_type(t):
 
 # --------------------------------------------------------------------------- clang-query
 
+SINGLETON_CALLEE = ('callee(cxxMethodDecl(ofClass(classTemplateSpecializationDecl('
+                    'hasName("::celma::common::Singleton")))))')
+
+
 def matcher_commands(repo):
     rx = "^" + re.escape(os.path.join(repo, "src")) + "/"
     rx = rx.replace("\\", "\\\\").replace('"', '\\"')
@@ -173,14 +177,19 @@ def matcher_commands(repo):
         "match varDecl(hasStaticStorageDuration(), unless(isStaticLocal()), unless(hasDeclContext(recordDecl())), %s)" % here,
         # 4 uses of static-storage objects declared outside the repository
         "match declRefExpr(%s, to(varDecl(hasStaticStorageDuration(), unless(%s)).bind(\"target\")))" % (here, here),
-        # 5 (other output mode) calls of member functions of common::Singleton<T> -- the only code that can
-        #   name the singleton's private static members -- with the enclosing function and, when the call
-        #   sits in a branch of an `if` (not in its condition), that branch and the condition
+        # 5-7 (other output mode) calls of member functions of common::Singleton<T> -- the only code that can
+        #   name the singleton's private static members:
+        #   5  every such call with the enclosing function,
+        #   6  every (if statement, call inside its then-branch) pair with the condition,
+        #   7  every (if statement, call inside its else-branch) pair with the condition.
+        #   A call in the *condition* of an `if` is in neither branch of it.
         "set output diag",
         "set bind-root false",
-        "match callExpr(%s, callee(cxxMethodDecl(ofClass(classTemplateSpecializationDecl(hasName(\"::celma::common::Singleton\"))))), "
-        "optionally(hasAncestor(stmt(hasParent(ifStmt(hasCondition(expr().bind(\"cond\")))), unless(equalsBoundNode(\"cond\"))).bind(\"branch\"))), "
-        "hasAncestor(functionDecl().bind(\"fn\")))" % here,
+        "match callExpr(%s, %s, hasAncestor(functionDecl().bind(\"fn\"))).bind(\"call\")" % (here, SINGLETON_CALLEE),
+        "match ifStmt(%s, hasCondition(expr().bind(\"cond\")), hasThen(stmt(eachOf(callExpr(%s).bind(\"call\"), "
+        "forEachDescendant(callExpr(%s).bind(\"call\"))))))" % (here, SINGLETON_CALLEE, SINGLETON_CALLEE),
+        "match ifStmt(%s, hasCondition(expr().bind(\"cond\")), hasElse(stmt(eachOf(callExpr(%s).bind(\"call\"), "
+        "forEachDescendant(callExpr(%s).bind(\"call\"))))))" % (here, SINGLETON_CALLEE, SINGLETON_CALLEE),
     ]
 
 
@@ -196,7 +205,7 @@ FN_NAME_RE = re.compile(r"((?:[A-Za-z_]\w*\s*::\s*)*~?[A-Za-z_]\w*)\s*\(")
 
 
 def split_query_output(out):
-    """the output of the four dump-mode matchers / of the fifth (diag-mode) matcher"""
+    """the output of the four dump-mode matchers / of the three diag-mode call-site matchers"""
     n = 0
     lines = out.split("\n")
     for i, line in enumerate(lines):
@@ -207,10 +216,9 @@ def split_query_output(out):
     raise RuntimeError("clang-query: expected 4 match summaries before the call-site matcher, got %d" % n)
 
 
-def parse_call_sites(lines, repo):
-    """-> list of dicts (file, function, guarded, guard) for the calls of Singleton<T> members"""
-    src = os.path.join(repo, "src") + "/"
-    blocks, cur, count = [], None, None
+def split_sections(lines, n):
+    """the output of n diag-mode matchers -> n lists of match blocks (each block a list of lines)"""
+    sections, blocks, cur = [], [], None
     for line in lines:
         if MATCH_HDR.match(line):
             cur = []
@@ -218,35 +226,136 @@ def parse_call_sites(lines, repo):
             continue
         m = COUNT_RE.match(line)
         if m:
-            count = int(m.group(1))
-            cur = None
+            if int(m.group(1)) != len(blocks):
+                raise RuntimeError("clang-query: %s call-site matches announced, %d parsed" % (m.group(1), len(blocks)))
+            sections.append(blocks)
+            blocks, cur = [], None
             continue
         if cur is not None:
             cur.append(line)
-    if count is None:
-        if any("0 matches." in l for l in lines):
-            count = 0
-        else:
-            raise RuntimeError("clang-query: no summary of the call-site matcher")
-    if count != len(blocks):
-        raise RuntimeError("clang-query: %d call sites announced, %d parsed" % (count, len(blocks)))
-    res = []
-    for b in blocks:
-        bound = {}
-        for i, l in enumerate(b):
-            m = DIAG_RE.match(l)
-            if m and m.group(4) not in bound:
-                bound[m.group(4)] = (m.group(1), int(m.group(2)), b[i + 1] if i + 1 < len(b) else "")
-        if "fn" not in bound:
+    if len(sections) != n:
+        raise RuntimeError("clang-query: expected %d summaries of the call-site matchers, got %d" % (n, len(sections)))
+    return sections
+
+
+def bound_nodes(block):
+    """name -> (file, line, column, source line) of the nodes bound in one diag-mode match"""
+    bound = {}
+    for i, l in enumerate(block):
+        m = DIAG_RE.match(l)
+        if m and m.group(4) not in bound:
+            bound[m.group(4)] = (m.group(1), int(m.group(2)), int(m.group(3)), block[i + 1] if i + 1 < len(block) else "")
+    return bound
+
+
+def norm_expr(t):
+    """source text of an expression without comments (already blanked) and without insignificant white space"""
+    t = " ".join(t.split())
+    return re.sub(r"(?<![A-Za-z0-9_]) | (?![A-Za-z0-9_])", "", t)
+
+
+def source_text(path, cache):
+    if path not in cache:
+        try:
+            cache[path] = strip_comments(open(path, "rb").read().decode("latin-1"))
+        except OSError as e:
+            raise RuntimeError("cannot read %s: %s" % (path, e))
+    return cache[path]
+
+
+def source_from(path, line, col, cache, n):
+    """up to n characters of the (comment-free) source from line:col on"""
+    txt = source_text(path, cache)
+    pos = 0
+    for _ in range(line - 1):
+        pos = txt.find("\n", pos) + 1
+        if pos <= 0:
+            return ""
+    return txt[pos + col - 1:pos + col - 1 + n]
+
+
+def condition_text(path, line, col, cache):
+    """normalised source text of the condition of an `if` whose expression starts at line:col (clang counts
+    bytes): everything up to the parenthesis that closes `if (`"""
+    if path not in cache:
+        try:
+            cache[path] = strip_comments(open(path, "rb").read().decode("latin-1"))
+        except OSError as e:
+            raise RuntimeError("cannot read %s: %s" % (path, e))
+    txt = cache[path]
+    pos = 0
+    for _ in range(line - 1):
+        pos = txt.find("\n", pos)
+        if pos < 0:
+            raise RuntimeError("%s has no line %d" % (path, line))
+        pos += 1
+    i = start = pos + col - 1
+    depth = 0
+    while i < len(txt):
+        ch = txt[i]
+        if ch in "\"'":
+            j = i + 1
+            while j < len(txt) and txt[j] != ch:
+                j += 2 if txt[j] == "\\" else 1
+            i = j + 1
+            continue
+        if ch in "([{":
+            depth += 1
+        elif ch in ")]}":
+            if depth == 0:
+                if ch != ")":
+                    break
+                res = norm_expr(txt[start:i])
+                if not res:
+                    break
+                return res
+            depth -= 1
+        elif ch == ";" and depth == 0:
+            break
+        i += 1
+    raise RuntimeError("%s:%d:%d: cannot delimit the condition of the `if`" % (path, line, col))
+
+
+def parse_call_sites(lines, repo, cache=None):
+    """-> list of dicts (file, function, line, col, guard) for the calls of Singleton<T> members; `guard` is the
+    list of the conditions of the enclosing `if` statements, outermost first, normalised source text, `!(..)`
+    when the call sits in the else-branch.  A call in the condition of an `if` is not guarded by that `if`."""
+    src = os.path.join(repo, "src") + "/"
+    cache = {} if cache is None else cache
+    calls, thens, elses = split_sections(lines, 3)
+    guards = {}           # (file, line, col) of the call -> {(line, col) of the condition: text}
+    for blocks, neg in ((thens, False), (elses, True)):
+        for b in blocks:
+            bound = bound_nodes(b)
+            if "call" not in bound or "cond" not in bound:
+                raise RuntimeError("clang-query: if/call match without call or condition: " + " | ".join(b[:6]))
+            cf, cl, cc, _ = bound["cond"]
+            text = condition_text(cf, cl, cc, cache)
+            guards.setdefault(bound["call"][:3], {})[(cf, cl, cc)] = "!(%s)" % text if neg else text
+    res, seen = [], set()
+    for b in calls:
+        bound = bound_nodes(b)
+        if "fn" not in bound or "call" not in bound:
             raise RuntimeError("clang-query: call site without enclosing function: " + " | ".join(b[:6]))
-        f, ln, text = bound["fn"]
-        if not f.startswith(src):
-            raise RuntimeError("clang-query: call site outside the repository: " + f)
-        m = FN_NAME_RE.search(text)
+        if bound["call"][:3] in seen:       # once per template instantiation
+            continue
+        seen.add(bound["call"][:3])
+        f, ln, fcol, text = bound["fn"]
+        cfile, cline, ccol, _ = bound["call"]
+        if not f.startswith(src) or not cfile.startswith(src):
+            raise RuntimeError("clang-query: call site outside the repository: " + cfile)
+        seg = text[fcol - 1:] if 0 < fcol <= len(text) else text
+        if "(" not in seg:          # `type\n   Class::name( ...`: the declarator continues on the following lines
+            seg = source_from(f, ln, fcol, cache, 600)
+        m = None if seg.lstrip()[:1] in ("(", ")", "[", "{") else FN_NAME_RE.search(seg)   # lambda: its call operator
         # a lambda / an unreadable header line keeps its position as name: never equal to a modelled caller
         name = re.sub(r"\s+", "", m.group(1)) if m else "%s:%d" % (f[len(src):], ln)
-        guard = " ".join(bound["cond"][2].split()) if "branch" in bound and "cond" in bound else ""
-        res.append({"file": f[len(src):], "function": name, "guarded": "branch" in bound, "guard": guard})
+        g = guards.get(bound["call"][:3], {})
+        res.append({"file": cfile[len(src):], "function": name, "line": cline, "col": ccol,
+                    "guard": [g[k] for k in sorted(g)]})
+    missing = set(guards) - seen
+    if missing:
+        raise RuntimeError("clang-query: guarded call sites not among the call sites: %s" % sorted(missing)[:3])
     return res
 
 
@@ -365,7 +474,7 @@ def token_scan_calls(path, rel):
     res = []
     for m in re.finditer(r"\b[A-Za-z_]\w*\s*(?:<[^;{}()]*>)?\s*::\s*(?:instance|reset)\s*\(", txt):
         ln = txt.count("\n", 0, m.start()) + 1
-        res.append({"kind": "singleton-call", "file": rel, "function": "%s:%d" % (rel, ln), "guarded": False, "guard": ""})
+        res.append({"kind": "singleton-call", "file": rel, "function": "%s:%d" % (rel, ln), "line": ln, "col": 0, "guard": []})
     return res
 
 
@@ -462,20 +571,33 @@ def emit_lean(path, method, files, entries, externals, n_const, n_tus, fallback_
     L.append(",\n".join(rows))
     L.append("]")
     L.append("")
+    L.append("/-- one call of a member function of `common::Singleton<T>`; `guard`: the conditions of the enclosing `if`")
+    L.append("statements, outermost first, as normalised source text (comments and insignificant white space removed),")
+    L.append("`!(c)` when the call sits in the else-branch of `if (c)`; a call inside the *condition* of an `if` is not")
+    L.append("guarded by it; `[]` = the call sits in no branch of any `if` of its function.  The call is reached only when")
+    L.append("all conjuncts hold. -/")
+    L.append("structure CallSite where")
+    L.append("  line  : Nat")
+    L.append("  guard : List String")
+    L.append("deriving Repr, DecidableEq")
+    L.append("")
     L.append("/-- a function of the reach that calls a member function of `common::Singleton<T>` (the only code")
-    L.append("that can name the singleton's private static members).  `guarded`: every such call in the function sits")
-    L.append("in a branch of an `if` (not in its condition); `guards`: the conditions as written (informational). -/")
+    L.append("that can name the singleton's private static members).  `sites`: its call sites in source order;")
+    L.append("`guards`: the distinct guards of the sites (sorted); `guarded`: no site has the empty guard. -/")
     L.append("structure SingletonCaller where")
     L.append("  file     : String")
     L.append("  function : String")
     L.append("  guarded  : Bool")
-    L.append("  guards   : List String")
+    L.append("  guards   : List (List String)")
+    L.append("  sites    : List CallSite")
     L.append("deriving Repr, DecidableEq")
     L.append("")
     L.append("def singletonCallers : List SingletonCaller := [")
-    L.append(",\n".join("  { file := %s, function := %s, guarded := %s, guards := [%s] }" % (
+    lst = lambda g: "[%s]" % ", ".join(lean_str(x) for x in g)
+    L.append(",\n".join("  { file := %s, function := %s, guarded := %s,\n    guards := [%s],\n    sites := [%s] }" % (
         lean_str(c["file"]), lean_str(c["function"]), "true" if c["guarded"] else "false",
-        ", ".join(lean_str(g) for g in c["guards"])) for c in callers))
+        ", ".join(lst(g) for g in c["guards"]),
+        ", ".join("{ line := %d, guard := %s }" % (x["line"], lst(x["guard"])) for x in c["sites"])) for c in callers))
     L.append("]")
     L.append("")
     L.append("def reach : List String := [")
@@ -610,13 +732,9 @@ def handler_inventory(repo, lean_dir):
     callers = {}
     for e in raw:
         if e["kind"] == "singleton-call":
-            c = callers.setdefault((e["file"], e["function"]), {"file": e["file"], "function": e["function"],
-                                                                "guarded": True, "guards": set(), "calls": 0})
-            c["calls"] += 1
-            if e["guarded"]:
-                c["guards"].add(e["guard"])
-            else:
-                c["guarded"] = False        # one call outside a branch makes the function an unguarded caller
+            c = callers.setdefault((e["file"], e["function"]), {"file": e["file"], "function": e["function"], "sites": {}})
+            # the same call site is seen once per unit that includes it
+            c["sites"].setdefault((e["line"], e["col"]), tuple(e["guard"]))
             continue
         if e["kind"] == "external-ref":
             x = externals.setdefault(e["name"], {"name": e["name"], "type": e["desugared"],
@@ -662,8 +780,10 @@ def handler_inventory(repo, lean_dir):
     caller_list = []
     for k in sorted(callers):
         c = callers[k]
-        # the same (file, function) is seen once per unit that includes it and once per call
-        caller_list.append({"file": c["file"], "function": c["function"], "guarded": c["guarded"], "guards": sorted(c["guards"])})
+        sites = [{"line": ln, "guard": list(g)} for (ln, _), g in sorted(c["sites"].items())]
+        caller_list.append({"file": c["file"], "function": c["function"],
+                            "guarded": all(x["guard"] for x in sites),      # one call outside every branch: unguarded caller
+                            "guards": sorted(set(tuple(x["guard"]) for x in sites)), "sites": sites})
     changed = emit_lean(out, method, files_out, entries, exts, len(n_const_keys - set(by_key)), len(tus) + 1, sorted(fallback), caller_list)
     return {
         "method": method,
@@ -671,7 +791,9 @@ def handler_inventory(repo, lean_dir):
         "reached_files": len(files_out),
         "unresolved_celma_includes": unresolved,
         "mutable_statics": ["%s:%d %s : %s [%s]" % (e["file"], e["line"], e["name"], e["type"], e["kind"]) for e in entries],
-        "singleton_callers": ["%s %s%s" % (c["file"], c["function"], " [guarded: %s]" % "; ".join(c["guards"]) if c["guarded"] else "") for c in caller_list],
+        "singleton_callers": ["%s %s: %s" % (c["file"], c["function"], "; ".join(
+            "line %d %s" % (x["line"], ("if " + " && ".join(x["guard"])) if x["guard"] else "unguarded") for x in c["sites"]))
+            for c in caller_list],
         "external_statics": ["%s : %s%s (%d sites)" % (x["name"], x["type"], "" if x["mutable"] else " [const]", len(x["sites"])) for x in exts],
         "const_statics": len(n_const_keys - set(by_key)),
         "const_external_statics": n_const_ext,
